@@ -112,4 +112,9 @@ let () =
               else "ok" in
         let verdict = String.map (fun c -> if c = ' ' then '_' else c) verdict in
         Mlutil.print_model mtoks verdict
+    | [n; _; _] when kind = "sched" ->
+        (* Events.v: a per-listener FIFO broker calls each listener serially and in emit order
+           (theorems listener_serial, delivery_is_emit_order); the oracle demands it of the code *)
+        let want = ["ser=1"; "ord=1"; "n=" ^ n] in
+        Mlutil.print_model want (if outs = want then "ok" else "fail:listener-not-serial-or-out-of-order")
     | _ -> Mlutil.print_model ["UNKNOWN-KIND"] "ok")
